@@ -237,9 +237,16 @@ impl Num {
     /// Optimize (abbreviation) the number
     /// Also, it makes that only denominator is positive.
     fn optimize(&mut self) {
-        let g = BigNum::gcd(&self.up, &self.down);
+        let mut g = BigNum::gcd(&self.up, &self.down);
+        if !g.is_pos() {
+            g.minus();
+        }
         self.up /= &g;
         self.down /= &g;
+        if !self.down.is_pos() {
+            self.down.minus();
+            self.up.minus();
+        }
     }
 
     /// Make itself change the sign
